@@ -196,6 +196,26 @@ def run(ctx):
                 ctx.violation(f'{label}-peak.json', dict(argv=argv_, peak=peak, bound=bound, correspondence='descriptor peak vs model bound'),
                               f'measured peak {peak} exceeds the model bound {bound} ({label})', no_input=True)
         subprocess.run(['rm', '-rf', root + '/S', root + '/D', root + '/big'])
+        # ---- many REGULAR FILES named one by one on the command line (`xcp dir/* dest/`): operands are not held open
+        os.makedirs(root + '/P'); os.makedirs(root + '/D')
+        nfo = 700
+        for i in range(nfo):
+            open(f'{root}/P/o{i}', 'wb').write(b'%d' % i)
+        for driver in ('parfile', 'parblock'):
+            subprocess.run(['rm', '-rf', root + '/D']); os.makedirs(root + '/D')
+            r = scen.run_xcp(root + '/P', ['--driver', driver, '--workers', '4'] + [f'o{i}' for i in range(nfo)] + ['../D'], timeout=300, nofile=512, trace=True)
+            peak = r.final.get('peak_fds', -1)
+            ncopied = len(os.listdir(root + '/D'))
+            bound = (2 * (CAP + 4 + 1) if driver == 'parblock' else 2 * 4) + CONST
+            ctx.count(f'many_file_operands.{driver}.exit.{r.cls}'); ctx.case(('many-file-operands', driver), True, sample=dict(operands=nfo, driver=driver, nofile=512, peak_descriptors=peak))
+            peaks[('file-operands', driver)] = peak
+            if r.cls != '0' or ncopied != nfo:
+                ctx.violation(f'many-file-operands-{driver}.json', dict(operands=nfo, driver=driver, exit=r.cls, copied=ncopied, peak=peak, stderr=r.stderr[-300:]),
+                              f'C20: {nfo} regular files given as operands under RLIMIT_NOFILE=512 failed or is incomplete ({r.cls}, {ncopied} copied, peak {peak}): {r.stderr.strip()[-100:]}')
+            elif peak > min(bound, 200):
+                ctx.violation(f'many-file-operands-{driver}-peak.json', dict(operands=nfo, driver=driver, peak=peak, bound=min(bound, 200), correspondence='descriptor peak must not grow with the number of operands'),
+                              f'measured peak {peak} with {nfo} file operands ({driver})', no_input=True)
+        subprocess.run(['rm', '-rf', root + '/P', root + '/D'])
     ctx.cov['peaks'] = {str(k): v for k, v in peaks.items()}
     ctx.cov['rule'] = '800 files of 3 blocks each and one file of 1500 blocks (parblock); trees of 400..3000 (thorough: ..20000) small files x driver x workers x {no stall, every copy_file_range stalled}; RLIMIT_NOFILE=1024; a tree 1100 directories deep; 700 (thorough 3000) sparse files with stalled pool threads; 1200 files with every fchmod failing; 1200 directories with non-default modes, also with --fsync; -L and --ownership on the 1200/3000-file trees; 120 source operands under RLIMIT_NOFILE=48 with slow directory reads. distinct = distinct (files, workers, driver, stall)'
     ctx.assumptions += ['descriptors = 2 per open CopyHandle + a constant (stdio, directory handles); crossbeam/threadpool internals hold no descriptors']
